@@ -13,9 +13,9 @@ theorem C15_translated_from_username_and_password (C : Crypto) (be : Backend) (u
       = some ((SrpVerifier.fromUsernameAndPassword C be u p salt).bind (fun s => .ok (valVerifier s, [], rest))) := by
   cases hv : SrpVerifier.fromUsernameAndPassword C be u p salt with
   | panic m =>
-    simp [Gen.CodeApi.fromUsernameAndPassword, ApiFn.run, runBody, Rhs.eval, Ret.eval, atomsVal, Atom.val, lookup, bindVar, srvPrims, hv, Out.bind, bind]
+    simp [Gen.CodeApi.fromUsernameAndPassword, ApiFn.run, runBody, Rhs.eval, drawKinds, Ret.eval, atomsVal, Atom.val, lookup, bindVar, srvPrims, hv, Out.bind, bind]
   | ok v =>
-    simp [Gen.CodeApi.fromUsernameAndPassword, ApiFn.run, runBody, Rhs.eval, Ret.eval, atomsVal, Atom.val, lookup, bindVar, srvPrims, hv, Out.bind, bind]
+    simp [Gen.CodeApi.fromUsernameAndPassword, ApiFn.run, runBody, Rhs.eval, drawKinds, Ret.eval, atomsVal, Atom.val, lookup, bindVar, srvPrims, hv, Out.bind, bind]
 
 /-- `SrpVerifier::into_proof(self)`: the private key is the one draw; same value, or both panic (the `expect` on an invalid public key) -/
 theorem C15_translated_into_proof (C : Crypto) (be : Backend) (s : SrpVerifier) (b : Bytes) (rest : List Bytes) :
@@ -24,17 +24,24 @@ theorem C15_translated_into_proof (C : Crypto) (be : Backend) (s : SrpVerifier) 
   simp only [SrpVerifier.intoProof]
   cases hw : SrpVerifier.withSpecificPrivateKey be s b with
   | panic m =>
-    simp [Gen.CodeApi.intoProof, ApiFn.run, runBody, Rhs.eval, Ret.eval, atomsVal, Atom.val, lookup, bindVar, srvPrims, selfVerifier, hw, Out.bind, bind,
+    simp [Gen.CodeApi.intoProof, ApiFn.run, runBody, Rhs.eval, drawKinds, Ret.eval, atomsVal, Atom.val, lookup, bindVar, srvPrims, selfVerifier, hw, Out.bind, bind,
       outcomeOf]
   | ok r =>
     cases r with
     | error e =>
-      simp [Gen.CodeApi.intoProof, ApiFn.run, runBody, Rhs.eval, Ret.eval, atomsVal, Atom.val, lookup, bindVar, srvPrims, selfVerifier, hw, Out.bind, bind,
+      simp [Gen.CodeApi.intoProof, ApiFn.run, runBody, Rhs.eval, drawKinds, Ret.eval, atomsVal, Atom.val, lookup, bindVar, srvPrims, selfVerifier, hw, Out.bind, bind,
         outcomeOf]
     | ok pr =>
-      simp [Gen.CodeApi.intoProof, ApiFn.run, runBody, Rhs.eval, Ret.eval, atomsVal, Atom.val, lookup, bindVar, srvPrims, selfVerifier, hw, Out.bind, bind,
+      simp [Gen.CodeApi.intoProof, ApiFn.run, runBody, Rhs.eval, drawKinds, Ret.eval, atomsVal, Atom.val, lookup, bindVar, srvPrims, selfVerifier, hw, Out.bind, bind,
         outcomeOf]
+
+/-- the parameter lists and return types the terms above were read under (the terms carry parameter NAMES; the types decide what a
+    conversion such as `Generator::from(generator)`, `.into()` or `?` means) -/
+theorem C15_translated_draw_signatures :
+    Gen.CodeApi.fromUsernameAndPasswordSig = "username:NormalizedString,password:NormalizedString,->Self" ∧
+    Gen.CodeApi.intoProofSig = "self->SrpProof" := by decide +kernel
 
 #print axioms C15_translated_from_username_and_password
 #print axioms C15_translated_into_proof
+#print axioms C15_translated_draw_signatures
 end WowSrp
